@@ -147,6 +147,7 @@ public:
   static void del_instance();
   void set_buffergroup(u32_t size, FILE *fin, FILE *fout, bool ispadding);
   u8_t *require_buffer_entry(const u8_t id);
+  void wait_buffer_ready(const u8_t id) { ctrl[id].wait_ready(); };
   void run_buffer(const std::function<void(std::string, size_t)> &printload);
 };
 #endif
